@@ -83,7 +83,8 @@ func (gw *eventBasedGateway) run(ctx context.Context, sender tracing.ISenderHand
 								}
 								close(ch)
 							}
-							terminationChannels = make(map[schema.IdRef]chan bool)
+							// (the map itself is left alone: the other alternatives read it from
+							// their own goroutines, and nobody uses the channels after this point)
 							return action
 						} else {
 							return completeAction{}
